@@ -276,14 +276,14 @@ def check(run):
             elif not ('&%s[0], bytes_transferred' % buf in txt and txt.startswith('boost::asio::async_write(%s' % dst)):
                 ok = False
                 why = '%s does not forward exactly (&%s[0], bytes_transferred) to %s: %s' % (recv, buf, dst, txt[:120])
-            elif ff.usr not in [x['e']['usr'] for x in walk(w) if x['k'] == 'un' and x['op'] == '&' and is_node(x['e']) and x['e'].get('dk') == 'func']:
+            elif ff.usr not in q.completion_targets(fr, w):
                 ok = False
                 why = 'the write completion is not ' + fwd
         run.check(ok, 'R4', 'relay-forwards-whole-chunk', C + '::' + recv, fr.loc(), why, 'async_write(%s, buffer(&%s[0], bytes_transferred)) -> %s' % (dst, buf, fwd))
         reads_in_recv = [c for c in fr.calls() if (q.callee_name(c) or '').endswith('async_read_some')]
         run.check(not reads_in_recv, 'R4', 'relay-no-overlapping-read', C + '::' + recv, fr.loc(), '%s starts another read into the buffer while its contents are still being written' % recv, 'no read is started before the write completes')
         rr = [c for c in ff.calls() if (q.callee_name(c) or '').endswith('async_read_some')]
-        okr = len(rr) == 1 and q.render(ff, rr[0].get('obj')) == src and 'boost::asio::buffer(%s)' % buf in q.render(ff, rr[0]) and fr.usr in [x['e']['usr'] for x in walk(rr[0]) if x['k'] == 'un' and x['op'] == '&' and is_node(x['e']) and x['e'].get('dk') == 'func']
+        okr = len(rr) == 1 and q.render(ff, rr[0].get('obj')) == src and 'boost::asio::buffer(%s)' % buf in q.render(ff, rr[0]) and fr.usr in q.completion_targets(ff, rr[0])
         run.check(okr, 'R4', 'relay-rereads', C + '::' + fwd, ff.loc(), '%s does not re-arm exactly one read of %s into %s completing in %s' % (fwd, src, buf, recv), 're-arms the read from the write completion')
     run.clause('command counters count requests received: incremented only in on_request1, once on every path that passed the command validation')
     incs = {}
